@@ -256,6 +256,18 @@ class Converter(NxHarness):
                 S.prove("skipped-not-equivalent", True)
                 return
             gates = lce.converter_gate_list(g1, g2)
+        elif self.api == "state_converter_circuit":
+            ok, _ = lc.is_lc_equivalent(nx.to_numpy_array(g1), nx.to_numpy_array(g2))
+            if not ok:
+                S.prove("skipped-not-equivalent", True)
+                return
+            from oracle import chp
+            circuit = lce.state_converter_circuit(g1, g2, validate=False)
+            S.prove("circuit-registers", circuit.n_photons == n and circuit.n_emitters == 0)
+            gates = []
+            for op in chp.expand_circuit_ops(circuit):
+                S.prove(f"one-qubit-photon-op[{len(gates)}]", op[0] in chp.ONE_Q and op[1][0] == "p")
+                gates.append((chp.ONE_Q[op[0]], op[1][1]))
         else:
             ok, gates = lce.lc_check(g1, g2, validate=False)
             ok0, _ = lc.is_lc_equivalent(nx.to_numpy_array(g1), nx.to_numpy_array(g2))
@@ -285,6 +297,7 @@ def plan(tier):
         jobs.append((IsLcEquivalent(n=n, mode="random", with_lc_ops=False), {}))
         jobs.append((Converter(n=n, api="converter_gate_list"), {}))
         jobs.append((Converter(n=n, api="lc_check"), {}))
+        jobs.append((Converter(n=n, api="state_converter_circuit"), {}))
     if not q:
         for h in (IsLcEquivalent(n=4, mode="deterministic", with_lc_ops=True), Converter(n=4, api="lc_check")):
             h.parallel = True
